@@ -180,6 +180,8 @@ class Ctx:
         if dfs:
             opts.append("-Dtlc2.tool.queue.IStateQueue=StateDeque")
         e["JAVA_TOOL_OPTIONS"] = (jto + " " + " ".join(opts)).strip()
+        # TLC pre-computes constant definitions on the JVM main thread: give it a deep stack too
+        e.setdefault("JDK_JAVA_OPTIONS", "-Xss512m")
         t = time.time()
         p = subprocess.run(cmd, cwd=d, stdout=subprocess.PIPE, stderr=subprocess.STDOUT, text=True, env=e)
         res = TLCResult(p.stdout, p.returncode)
